@@ -279,6 +279,38 @@ func handlerCalls(fn *ssa.Function, fv *types.Var) []*ssa.Call {
 		}
 		if _, f := loadedField(canonPhi(c.Call.Value)); f == fv {
 			out = append(out, c)
+			return
+		}
+		// h declared first and loaded under a condition (var h Handler; if open { h = a.handler }): every
+		// non-nil source of the merged value is a load of the field
+		if ph, isPhi := c.Call.Value.(*ssa.Phi); isPhi {
+			n, all := 0, true
+			seen := map[*ssa.Phi]bool{}
+			var walk func(p *ssa.Phi)
+			walk = func(p *ssa.Phi) {
+				if seen[p] {
+					return
+				}
+				seen[p] = true
+				for _, e := range p.Edges {
+					if isNilConst(e) {
+						continue
+					}
+					if q, ok := e.(*ssa.Phi); ok {
+						walk(q)
+						continue
+					}
+					if _, f := loadedField(e); f == fv {
+						n++
+					} else {
+						all = false
+					}
+				}
+			}
+			walk(ph)
+			if all && n > 0 {
+				out = append(out, c)
+			}
 		}
 	})
 	return out
